@@ -39,6 +39,7 @@ type c29Step struct {
 	O  string      `json:"o"`
 	K  string      `json:"k"`
 	V  string      `json:"v"`
+	W  [][2]string `json:"w"` // Load: the field lines of the message the object is read from
 	A  [][2]string `json:"a"`
 	P  [][3]any    `json:"p"`
 	G  c29Get      `json:"g"`
@@ -127,6 +128,8 @@ func c29Apply(h c29Hdr, req *RequestHeader, resp *ResponseHeader, cfg *c29Cfg, s
 	k, v := []byte(st.K), []byte(st.V)
 	variant := rng.Intn(5)
 	switch st.O {
+	case "Load":
+		return c29Load(req, resp, cfg, st, variant&1 == 1)
 	case "Set":
 		switch variant {
 		case 0:
@@ -233,6 +236,47 @@ func c29Apply(h c29Hdr, req *RequestHeader, resp *ResponseHeader, cfg *c29Cfg, s
 		return fmt.Errorf("unknown op %q", st.O)
 	}
 	c29Scribble(k, v)
+	return nil
+}
+
+// c29Load fills the header object by reading a message with the given field lines from the
+// wire; with viaCopy the message is read into another object which is then copied
+// (CopyTo) into the object under test.
+func c29Load(req *RequestHeader, resp *ResponseHeader, cfg *c29Cfg, st *c29Step, viaCopy bool) error {
+	var wire bytes.Buffer
+	if req != nil {
+		wire.WriteString("GET /x HTTP/1.1\r\n")
+	} else {
+		wire.WriteString("HTTP/1.1 200 OK\r\n")
+	}
+	for _, l := range st.W {
+		wire.WriteString(l[0] + ": " + l[1] + "\r\n")
+	}
+	wire.WriteString("\r\n")
+	br := bufio.NewReader(bytes.NewReader(wire.Bytes()))
+	if req != nil {
+		dst := req
+		if viaCopy {
+			_, dst, _ = c29New(cfg)
+		}
+		if err := dst.Read(br); err != nil {
+			return fmt.Errorf("Load: cannot read %q: %v", wire.Bytes(), err)
+		}
+		if viaCopy {
+			dst.CopyTo(req)
+		}
+		return nil
+	}
+	dst := resp
+	if viaCopy {
+		_, _, dst = c29New(cfg)
+	}
+	if err := dst.Read(br); err != nil {
+		return fmt.Errorf("Load: cannot read %q: %v", wire.Bytes(), err)
+	}
+	if viaCopy {
+		dst.CopyTo(resp)
+	}
 	return nil
 }
 
@@ -484,10 +528,6 @@ func TestVerifC29HeaderMap(t *testing.T) {
 		seen[full] = struct{}{}
 		evals++
 		perMode[fmt.Sprintf("%s_norm_%v", beh.Cfg.Kind, beh.Cfg.Norm)]++
-		h, req, resp := c29New(&beh.Cfg)
-		if req != nil {
-			req.SetRequestURI("/x")
-		}
 		// dirty destinations for CopyTo
 		dirtyReq.Set("X-Old", "1")
 		dirtyReq.SetCookie("old", "1")
@@ -495,28 +535,60 @@ func TestVerifC29HeaderMap(t *testing.T) {
 		dirtyResp.Set("X-Old", "1")
 		dirtyResp.SetServer("old")
 		big := false
-		for i := range beh.Steps {
-			st := &beh.Steps[i]
-			if err := c29Apply(h, req, resp, &beh.Cfg, st, rng); err != nil {
-				vfInfra(err.Error())
-				return
-			}
-			steps++
+		for _, st := range beh.Steps {
 			if len(st.A) >= 3 {
 				big = true
 			}
-			obs, msg := c29Observe(h, req, resp, &beh.Cfg, st, &dirtyReq, &dirtyResp)
-			if obs != "" {
-				// at most 25 reports per observer, so that one frequent disagreement cannot use
-				// up the cap on reported violations and hide a different one
-				perObs[obs]++
-				if perObs[obs] > 25 {
-					suppressed++
+		}
+		// Pass 0 compares all observers after EVERY step. Observers have side effects of
+		// their own (lazy cookie collection, shared scratch buffers), so the behaviour is
+		// replayed again with the observers run only after the LAST step (pass 1), and, when
+		// it starts by loading the object from the wire, once more with the load done
+		// through Read + CopyTo (pass 2).
+		passes := 2
+		if beh.Steps[0].O == "Load" {
+			passes = 3
+		}
+		for pass := 0; pass < passes; pass++ {
+			tag := [3]string{"", ":observed-at-end-only", ":observed-at-end-only,loaded-via-CopyTo"}[pass]
+			h, req, resp := c29New(&beh.Cfg)
+			if req != nil {
+				req.SetRequestURI("/x")
+			}
+			failed := false
+			for i := range beh.Steps {
+				st := &beh.Steps[i]
+				var err error
+				if st.O == "Load" && pass > 0 {
+					err = c29Load(req, resp, &beh.Cfg, st, pass == 2)
+				} else {
+					err = c29Apply(h, req, resp, &beh.Cfg, st, rng)
+				}
+				if err != nil {
+					vfInfra(err.Error())
+					return
+				}
+				if pass > 0 && i < len(beh.Steps)-1 {
+					continue
+				}
+				steps++
+				obs, msg := c29Observe(h, req, resp, &beh.Cfg, st, &dirtyReq, &dirtyResp)
+				if obs != "" {
+					failed = true
+					// at most 25 reports per observer, so that one frequent disagreement cannot
+					// use up the cap on reported violations and hide a different one
+					perObs[obs+tag]++
+					if perObs[obs+tag] > 25 {
+						suppressed++
+						break
+					}
+					vfViol("c29:"+obs+":"+c29OpsKey(&beh, i)+tag,
+						fmt.Sprintf("after %s%s: %s", c29OpsKey(&beh, i), tag, msg),
+						vfRec{"ops": c29OpsKey(&beh, i), "observer": obs, "step": i + 1, "pass": tag, "model": st})
 					break
 				}
-				vfViol("c29:"+obs+":"+c29OpsKey(&beh, i),
-					fmt.Sprintf("after %s: %s", c29OpsKey(&beh, i), msg),
-					vfRec{"ops": c29OpsKey(&beh, i), "observer": obs, "step": i + 1, "model": st})
+			}
+			if failed {
 				break
 			}
 		}
